@@ -188,11 +188,20 @@ def run_case(idx, rng, tier, rep):
         elif op == 'reset_stream':
             code = rng.choice([0, 1, 8, 0xff, 2 ** 32 - 1, -1] + BIG)
             res = t.call('reset_stream', sid, code)
-            judge(op, res, False, lookup_sid=sid)
+            # documented since the repair c12a0ab: ValueError for an error code that does not fit in 32 bits
+            bad_code = not 0 <= code <= 2 ** 32 - 1
+            judge(op, res, bad_code, lookup_sid=sid)
+            if bad_code and res.exc is None:
+                rep.violation('C29:out-of-range-argument-accepted:reset_stream', 'reset_stream(%d, %d) succeeded' % (sid, code), wit(h, op))
         elif op == 'close_connection':
-            res = t.call('close_connection', rng.choice([0, 1, 2 ** 32 - 1] + BIG), rng.choice([None, b'', b'debug']),
-                         rng.choice([None, 0, 1] + BIG))
-            judge(op, res, False)
+            code = rng.choice([0, 1, 2 ** 32 - 1, -1] + BIG)
+            last = rng.choice([None, 0, 1, -1] + BIG)
+            res = t.call('close_connection', code, rng.choice([None, b'', b'debug']), last)
+            # documented since c12a0ab: ValueError for an error code beyond 32 bits or a last stream id beyond 31 bits
+            bad_arg = not 0 <= code <= 2 ** 32 - 1 or (last is not None and not 0 <= last <= 2 ** 31 - 1)
+            judge(op, res, bad_arg)
+            if bad_arg and res.exc is None:
+                rep.violation('C29:out-of-range-argument-accepted:close_connection', 'close_connection(%d, last=%r) succeeded' % (code, last), wit(h, op))
         elif op == 'update_settings':
             k = rng.choice([1, 2, 3, 4, 5, 6, 8, 9, 0xffff])
             v = rng.choice([0, 1, 2, 100, 16384, 65535, 2 ** 24 - 1, 2 ** 24, 2 ** 31 - 1, 2 ** 31, 2 ** 32 - 1])
